@@ -3,15 +3,19 @@
 Tie:
   T  `delay_ms_for_try` (straight-line arithmetic), the module constants it uses, the defaults with which the retry loop
      calls it, and the if/elif decision chain of the `except Exception as e` handler of
-     `retry_transient_errors_with_debug_string` are regenerated from the current source into coq/generated/C21/Gen.v;
+     `retry_transient_errors_with_debug_string`, and the chain-following tails of is_limited_retries_error /
+     is_transient_error (`if e.__cause__ is not None: return f(e.__cause__)`; everything before the tail is checked to look at
+     the object itself only: no dunder attribute, no introspection, `e` does not escape) are regenerated from the current source into coq/generated/C21/Gen.v;
      Lemmas.v proves them equal to the hand model, Props_C21.v states the theorems about the loop model instantiated with
      the GENERATED pieces (Retry/Inst.v).
   X  the loop skeleton (`run` in Retry/Model.v) is compared with the REAL coroutine: scripted failure sequences (class-vector
      probes, real aiohttp / OSError / hailtop.httpx / TransientError / chained instances, BaseExceptions), patched
      asyncio.sleep and random.randrange; (calls, outcome, sleeps) must agree, through all three entry points.
+     Chained exception objects (Retry/Chain.v: kind, __cause__, __context__, __suppress_context__) built by real raise
+     statements (from / implicit / from None / mixed / re-raise) are classified by the real classifiers and by the model.
 Oracle: the property statement itself, evaluated on the real helpers with a hand-written catalogue of exception instances
-whose documented class (transient / rate-limit / limited-retry / permanent, incl. chained) is the expectation — it does not
-use the model.
+whose documented class (transient / rate-limit / limited-retry / permanent, incl. chained with `from` and errors raised while
+another error was being handled: implicit __context__, `from None`, mixed) is the expectation — it does not use the model.
 """
 import ast
 import itertools
@@ -40,20 +44,34 @@ META = dict(
                'min(max, c_t div 2) <= d <= min(max, c_t), d <= max with c_t = base*2^min(t,30), for every value randrange can '
                'return. delay_ms_for_try has the same bounds for all tries>=0, base>=0, max. The decision chain, the delay '
                'arithmetic, its constants and the loop\'s call of it are regenerated from utils.py on every run and proved equal to '
-               'the hand model; the loop skeleton is compared with the real coroutine (all three async entry points).',
-    level_note='The three classifiers is_limited_retries_error / is_rate_limit_error / is_transient_error are universally quantified '
-               'functions in the theorems (not modelled): which concrete exceptions they accept is checked only by the oracle against a '
-               'hand-written catalogue of documented cases. Trusted: Coq kernel; harness/translate/pyast.py + the C21 handler-chain '
+               'the hand model; the loop skeleton is compared with the real coroutine (all three async entry points). '
+               'Chained exceptions: an exception object is (kind, __cause__, __context__, __suppress_context__), a finite tree; '
+               'is_limited_retries_error and is_transient_error are modelled as [own tests on the object] followed by the chain-following tail, '
+               'which is regenerated from the source and proved to follow __cause__ only (C21_classifier_tails_follow_cause_only); proved for all '
+               'objects and scripts: the classification depends only on the kinds along the __cause__ chain (C21_classification_ignores_context), '
+               'the whole loop (outcome, calls, sleeps) is unchanged when everything hanging off __context__ links is changed or erased '
+               '(C21_loop_ignores_context), and an error that is nothing in itself and has no __cause__ is raised at once whatever was being handled '
+               'when it was raised, implicitly or `from None` (C21_permanent_raised_while_handling_immediate). The chain model is compared with the real '
+               'classifiers on object graphs made by real raise statements (exhaustive over 4 atoms x cause x context x from None, plus random graphs '
+               'to depth 5 over 20 atoms).',
+    level_note='In the loop theorems the three classifiers are universally quantified functions; in the chain theorems their link-following '
+               'structure is modelled (tail generated from the source) while the tests on the object itself are a universally quantified '
+               'function `own` (in the correspondence: measured on bare instances). Which concrete exceptions they accept is checked only by the '
+               'oracle against a hand-written catalogue of documented cases. __cause__ chains that loop back (two opposite `raise .. from ..`) are '
+               'outside the model: exception objects are finite trees (the real classifiers raise RecursionError on such a loop). Trusted: Coq kernel; harness/translate/pyast.py + the C21 handler-chain '
                'walker; the loader stubs for aiodocker/urllib3/requests/botocore (exception classes only); CPython asyncio; the '
                'patched asyncio.sleep / random.randrange. Logging side effects are ignored. sync_retry_transient_errors is covered by '
                'the oracle only.',
     partial=False,
 )
-TRUSTED = ['translator harness/translate/pyast.py + C21 subclass (<<, random.randrange) + C21 handler-chain walker (benign-statement filter)',
+TRUSTED = ['translator harness/translate/pyast.py + C21 subclass (<<, random.randrange) + C21 handler-chain walker (benign-statement filter) '
+           '+ C21 classifier-tail walker (_classifier_tail: link-following ifs at the end, object-only statements before)',
            'loader stubs: aiodocker, urllib3, requests, botocore are permissive stubs (only their exception class identities are used)',
            'CPython 3.12 asyncio; asyncio.sleep, time.sleep and random.randrange are patched inside hailtop.utils.utils for the runs',
            'correspondence harness harness/impl/c21_retry.py']
 ASSUMPTIONS = ['the operation is modelled by a finite script of failures after which it succeeds',
+               'exception objects are finite trees over __cause__ / __context__ (no __cause__ loop)',
+               'the tests a classifier makes before its tail depend on the object itself only (checked syntactically by the tail walker; attributes such as os_error are part of the object)',
                'classifier results for a given exception object do not change between calls (they are pure functions of the exception)',
                'log.warning / traceback formatting never raise']
 
@@ -153,9 +171,88 @@ def _randrange(tr, n):
     return f'(randrange {a})', 'Z'
 
 
+LINKS = {'__cause__': 'cause', '__context__': 'context'}
+_INTROSPECTION = {'getattr', 'hasattr', 'vars', 'dir', 'traceback', 'inspect', 'locals', 'globals', 'eval', 'exec'}
+
+
+def _classifier_tail(src, name):
+    """The chain-following tail of a classifier `def name(e)`:
+           <statements that look at e itself only>
+           [if e.<link> is not None: return name(e.<link>)]*
+           return False
+    Returns the list of links followed, in order.  Fail closed: the statements before the tail may use `e` only as
+    `isinstance(e, ...)` or `e.<non-dunder attribute>`, never rebind it, and never use introspection helpers - so whatever
+    they compute is a function of the object itself, not of what it is chained to."""
+    fn = find_function(src, name)
+    a = fn.args
+    if a.vararg or a.kwarg or a.kwonlyargs or a.posonlyargs or len(a.args) != 1:
+        raise TieBroken('py-translator', f'{name}: expected exactly one parameter')
+    p = a.args[0].arg
+    body = [s for s in fn.body if not (isinstance(s, ast.Expr) and isinstance(s.value, ast.Constant))]
+    if not body or ast.unparse(body[-1]) != 'return False':
+        raise TieBroken('py-translator', f'{name}: does not end with `return False`')
+    links = []
+    k = len(body) - 1
+    while k > 0:
+        st = body[k - 1]
+        m = None
+        if (isinstance(st, ast.If) and not st.orelse and len(st.body) == 1 and isinstance(st.test, ast.Compare)
+                and len(st.test.ops) == 1 and isinstance(st.test.ops[0], ast.IsNot)
+                and isinstance(st.test.comparators[0], ast.Constant) and st.test.comparators[0].value is None
+                and isinstance(st.test.left, ast.Attribute) and isinstance(st.test.left.value, ast.Name)
+                and st.test.left.value.id == p and st.test.left.attr.startswith('__')):
+            link = st.test.left.attr
+            if ast.unparse(st.body[0]) == f'return {name}({p}.{link})':
+                m = link
+        if m is None:
+            break
+        if m not in LINKS:
+            raise TieBroken('py-translator', f'{name}: follows unknown link {m}')
+        links.insert(0, m)
+        k -= 1
+    parents = {}
+    for st in body[:k]:
+        for n in ast.walk(st):
+            for c in ast.iter_child_nodes(n):
+                parents[c] = n
+    for st in body[:k]:
+        for n in ast.walk(st):
+            where = f'{name} line {getattr(n, "lineno", st.lineno)}'
+            if isinstance(n, ast.Attribute) and n.attr.startswith('__'):
+                raise TieBroken('py-translator', f'{where}: `{ast.unparse(n)}` - a dunder attribute outside the chain-following tail')
+            if isinstance(n, ast.Name) and n.id in _INTROSPECTION:
+                raise TieBroken('py-translator', f'{where}: introspection helper `{n.id}`')
+            if isinstance(n, (ast.FunctionDef, ast.AsyncFunctionDef, ast.Lambda, ast.ClassDef, ast.Try, ast.While, ast.For, ast.With,
+                              ast.Global, ast.Nonlocal, ast.Delete, ast.NamedExpr)):
+                raise TieBroken('py-translator', f'{where}: unexpected {type(n).__name__} in a classifier')
+            if isinstance(n, ast.Name) and n.id == p:
+                if not isinstance(n.ctx, ast.Load):
+                    raise TieBroken('py-translator', f'{where}: `{p}` is rebound')
+                par = parents.get(n)
+                ok = (isinstance(par, ast.Attribute) and par.value is n) or \
+                     (isinstance(par, ast.Call) and isinstance(par.func, ast.Name) and par.func.id == 'isinstance' and par.args and par.args[0] is n)
+                if not ok:
+                    raise TieBroken('py-translator', f'{where}: `{p}` escapes (`{ast.unparse(par)[:80]}`): only isinstance({p}, ..) and {p}.<attr> are understood')
+    return links
+
+
+def _tail_def(name, links):
+    body = 'false'
+    for link in reversed(links):
+        body = f'match {LINKS[link]} e with Some c => rec c | None => {body} end'
+    return (f'(* tail of {name}: ' + (' ; '.join(f'if e.{l} is not None: return {name}(e.{l})' for l in links) or '(no link followed)') + ' ; return False *)\n'
+            f'Definition {name}_tail {{X : Type}} (cause context : X -> option X) (rec : X -> bool) (e : X) : bool :=\n  {body}.\n')
+
+
 def generate(ctx):
     src = ctx.read_repo(SRC)
     tree = ast.parse(src)
+
+    # ---- chain-following tails of the classifiers
+    tails = {n: _classifier_tail(src, n) for n in ('is_limited_retries_error', 'is_transient_error', 'is_rate_limit_error')}
+    if tails['is_rate_limit_error']:
+        raise TieBroken('py-translator', f'is_rate_limit_error follows {tails["is_rate_limit_error"]} (modelled as a function of the object itself)')
+    tail_defs = '\n'.join(_tail_def(n, tails[n]) for n in ('is_limited_retries_error', 'is_transient_error'))
 
     # ---- delay_ms_for_try
     fn = find_function(src, 'delay_ms_for_try')
@@ -268,7 +365,10 @@ Definition loop_delay_ms (randrange : Z -> Z) (tries : Z) : Z :=
 (* `except Exception as {exc}:` handler after `tries += 1`: true = fall through to `await asyncio.sleep(delay)`, false = `raise` *)
 Definition retry_decision (tries : Z) (limited rate_limit transient : bool) : bool :=
   {decision}.
-'''
+
+(* chain-following tails of the classifiers over an abstract exception object with __cause__ / __context__ links;
+   `rec` is the classifier itself *)
+{tail_defs}'''
     if 'LOG_2_MAX_MULTIPLIER' not in all_consts:
         raise TieBroken('py-translator', 'delay_ms_for_try no longer uses LOG_2_MAX_MULTIPLIER (the model is stated with it)')
     ctx.write_generated('Gen.v', text)
@@ -317,6 +417,11 @@ CATALOGUE = [
     ('chain-exception<-aiohttp-503', _x('Exception', cause=_x('aiohttp.ClientResponseError', status=503)), 'retry'),
     ('chain-aiohttp-404<-timeout', _x('aiohttp.ClientResponseError', status=404, cause=_x('asyncio.TimeoutError')), 'retry'),
     ('chain-aiohttp-429<-reset', _x('aiohttp.ClientResponseError', status=429, cause=_RESET), 'retry'),
+    # explicit wrapper around a transient error, raised while something unrelated was being handled
+    ('ctx-runtime<-transient|handling-value', _x('RuntimeError', cause=_x('TransientError'), context=_x('ValueError')), 'retry'),
+    ('ctx-transient|handling-value', _x('TransientError', context=_x('ValueError')), 'retry'),
+    ('ctx-oserror-econnreset|handling-key-from-none', _x('OSError', errno='ECONNRESET', context=_x('KeyError'), from_none=True), 'retry'),
+    ('ctx-reraise-transient-from-value', _x('TransientError', reraise_from=_x('ValueError')), 'retry'),
     # --- limited-retry only
     ('reset-no-errno', _RESET, 'limited'),
     ('refused-no-errno', _x('ConnectionRefusedError'), 'limited'),
@@ -325,6 +430,9 @@ CATALOGUE = [
     ('stub-docker-404-azurecr', _x('stub.DockerError', status=404, message='x.azurecr.io/y not found: manifest unknown: z'), 'limited'),
     ('chain-runtime<-reset', _x('RuntimeError', cause=_RESET), 'limited'),
     ('chain-key<-value<-refused', _x('KeyError', cause=_x('ValueError', cause=_x('ConnectionRefusedError'))), 'limited'),
+    ('ctx-runtime<-reset|handling-key', _x('RuntimeError', cause=_RESET, context=_x('KeyError')), 'limited'),
+    ('ctx-runtime<-reset|handling-transient', _x('RuntimeError', cause=_RESET, context=_x('TransientError')), 'limited'),
+    ('ctx-reset|handling-transient', _x('ConnectionResetError', context=_x('TransientError')), 'limited'),
     # --- permanent
     *[(f'py-{n}', _x(n), 'permanent') for n in ('ValueError', 'KeyError', 'RuntimeError', 'AssertionError', 'ZeroDivisionError', 'TypeError')],
     *[(f'aiohttp-{s}', _x('aiohttp.ClientResponseError', status=s), 'permanent') for s in (400, 401, 403, 404, 409, 501)],
@@ -344,6 +452,23 @@ CATALOGUE = [
     ('stub-docker-404', _x('stub.DockerError', status=404, message='no such image'), 'permanent'),
     ('chain-value<-key', _x('ValueError', cause=_x('KeyError')), 'permanent'),
     ('chain-runtime<-aiohttp-404', _x('RuntimeError', cause=_x('aiohttp.ClientResponseError', status=404)), 'permanent'),
+    # --- permanent errors raised WHILE another error was being handled.  __context__ is set by the interpreter for any
+    # exception raised inside an `except` block or in clean-up code; only `raise X from Y` (__cause__) makes X a wrapper of Y
+    # (utils.py follows __cause__; "chained" in its comments is `from`).  Such an error is not the error that was being handled.
+    ('ctx-value|handling-reset', _x('ValueError', context=_RESET), 'permanent'),
+    ('ctx-value|handling-refused', _x('ValueError', context=_x('ConnectionRefusedError')), 'permanent'),
+    ('ctx-value|handling-reset-from-none', _x('ValueError', context=_RESET, from_none=True), 'permanent'),
+    ('ctx-value|handling-transient', _x('ValueError', context=_x('TransientError')), 'permanent'),
+    ('ctx-key|handling-aiohttp-503-from-none', _x('KeyError', context=_x('aiohttp.ClientResponseError', status=503), from_none=True), 'permanent'),
+    ('ctx-aiohttp-404|handling-timeout', _x('aiohttp.ClientResponseError', status=404, context=_x('asyncio.TimeoutError')), 'permanent'),
+    ('ctx-assert|handling-httpx-400-user-project', _x('AssertionError', context=_x('hailtop.httpx.ClientResponseError', status=400, body='User project specified in the request is invalid.')), 'permanent'),
+    ('ctx-value|handling-key|handling-reset', _x('ValueError', context=_x('KeyError', context=_RESET)), 'permanent'),
+    ('ctx-runtime<-value|handling-reset', _x('RuntimeError', cause=_x('ValueError'), context=_RESET), 'permanent'),
+    ('ctx-runtime<-value|handling-transient', _x('RuntimeError', cause=_x('KeyError'), context=_x('TransientError')), 'permanent'),
+    ('ctx-runtime<-(value|handling-reset)', _x('RuntimeError', cause=_x('ValueError', context=_RESET)), 'permanent'),
+    ('ctx-runtime<-(value|handling-transient)', _x('RuntimeError', cause=_x('ValueError', context=_x('TransientError'))), 'permanent'),
+    ('ctx-value|handling-(runtime<-reset)', _x('ValueError', context=_x('RuntimeError', cause=_RESET)), 'permanent'),
+    ('ctx-reraise-value-from-key', _x('ValueError', reraise_from=_x('KeyError')), 'permanent'),
 ]
 BASES = [('base-KeyboardInterrupt', {'t': 'base', 'name': 'KeyboardInterrupt'}, 'base'),
          ('base-CancelledError', {'t': 'base', 'name': 'CancelledError'}, 'base'),
@@ -458,7 +583,137 @@ def _model_runs(ctx, cases, impl):
     return [_model_outcome(v) for v in coq_eval(ctx, HEADER, exprs, label='loop')]
 
 
+# ---- chained exception objects: Retry.Chain.classify vs the real classifiers
+# Atoms = exception objects without links.  What the tests of a classifier on the object itself decide (`own`) is MEASURED on
+# the real classifier (bare atom; atom wrapped `from` a known positive); the structure - which links are followed, to any
+# depth, through any mixture of __cause__ / __context__ / from None - is the model's prediction and is compared.
+ATOMS = [
+    _x('ValueError'), _RESET, _x('TransientError'), _x('hailtop.httpx.ClientResponseError', status=404, body='nope'),     # [:4] exhaustive scope
+    _x('KeyError'), _x('RuntimeError'), _x('ConnectionRefusedError'), _x('ConnectionResetError', errno='ECONNRESET'),
+    _x('asyncio.TimeoutError'), _x('aiohttp.ClientResponseError', status=503), _x('aiohttp.ClientResponseError', status=404),
+    _x('hailtop.httpx.ClientResponseError', status=400, body='User project specified in the request is invalid.'),
+    _x('hailtop.httpx.ClientResponseError', status=503), _x('hailtop.httpx.ClientResponseError', status=429),
+    _x('stub.DockerError', status=404, message='x.azurecr.io/y not found: manifest unknown: z'), _x('stub.DockerError', status=404, message='no such image'),
+    _x('stub.DockerError', status=503, message='service unavailable'),
+    _x('aiohttp.ClientConnectorError', os_error=_x('OSError', errno='ECONNREFUSED')), _x('OSError', errno='ENOENT'), _x('OSError', errno='EPIPE'),
+]
+_POS = {0: _RESET, 2: _x('TransientError')}       # classifier index (limited, -, transient) -> an object it accepts
+
+
+def _atom(a, **kw):
+    d = dict(ATOMS[a])
+    d['atom'] = a
+    d.update(kw)
+    return d
+
+
+def _rand_shape(rng, depth):
+    sp = _atom(rng.randrange(len(ATOMS)) if rng.random() < 0.6 else rng.randrange(4))
+    if depth > 0:
+        r = rng.random()
+        if r < 0.06:
+            sp['reraise_from'] = _rand_shape(rng, depth - 1)
+            return sp
+        if r < 0.45:
+            sp['cause'] = _rand_shape(rng, depth - 1)
+        if rng.random() < 0.5:
+            sp['context'] = _rand_shape(rng, depth - 1)
+        if 'cause' not in sp and rng.random() < 0.3:
+            sp['from_none'] = True
+    return sp
+
+
+def _shapes(ctx):
+    out = []
+    small = [None, 0, 1, 2, 3]
+    for root in range(4):
+        for c in small:
+            for x in small:
+                for fn in ((False, True) if c is None else (False,)):
+                    kw = {}
+                    if c is not None:
+                        kw['cause'] = _atom(c)
+                    if x is not None:
+                        kw['context'] = _atom(x)
+                    if fn:
+                        kw['from_none'] = True
+                    out.append(_atom(root, **kw))
+        for b in range(4):
+            out.append(_atom(root, reraise_from=_atom(b)))
+    for _ in range(ctx.scale(400, 5000)):
+        out.append(_rand_shape(ctx.rng, ctx.rng.choice([1, 2, 2, 3, 4])))
+    return out
+
+
+def _shape_term(l):
+    if l is None:
+        return 'None'
+    if l.get('atom') is None:
+        raise RuntimeError(f'c21: an exception object without atom tag appeared in a chain: {l}')
+    return f'(Some (Exn {l["atom"]}%nat {_shape_term(l["cause"])} {_shape_term(l["context"])} {blit(l["suppress"])}))'
+
+
+def _links_stats(l, acc):
+    if l is None:
+        return 0
+    d = 1 + max(_links_stats(l['cause'], acc), _links_stats(l['context'], acc))
+    acc['cause'] += l['cause'] is not None
+    acc['context'] += l['context'] is not None
+    acc['suppressed_context'] += bool(l['context'] is not None and l['suppress'])
+    return d
+
+
+def _shape_corr(ctx):
+    probes = []
+    for a in range(len(ATOMS)):
+        probes += [_atom(a), _atom(a, cause=dict(_POS[0])), _atom(a, cause=dict(_POS[2]))]
+    shapes = _shapes(ctx)
+    out = ctx.run_impl('c21_retry.py', {'cases': [], 'delay_cases': [], 'shapes': probes + shapes}, timeout=300)['shape_cls']
+    pr, sh = out[:len(probes)], out[len(probes):]
+    own = {0: [], 2: []}
+    rate = []
+    for a in range(len(ATOMS)):
+        bare, wl, wt = pr[3 * a], pr[3 * a + 1], pr[3 * a + 2]
+        for ci, w in ((0, wl), (2, wt)):
+            own[ci].append('Some true' if bare['cls'][ci] else ('None' if w['cls'][ci] else 'Some false'))
+        rate.append(bool(bare['cls'][1]))
+    tl, tt = listlit(own[0]), listlit(own[2])
+    exprs = []
+    for r in sh:
+        if r['cls'] is None:
+            exprs.append('(false, false)')
+            continue
+        t = _shape_term(r['links'])[len('(Some '):-1]
+        exprs.append(f'(classify (own_table {tl}) {t}, classify (own_table {tt}) {t})')
+    vals = coq_eval(ctx, HEADER + ' From HailV Require Import Retry.Chain.', exprs, label='chain')
+    dis, acc, depth_hist, distinct = [], {'cause': 0, 'context': 0, 'suppressed_context': 0}, {}, set()
+    for sp, r, v in zip(shapes, sh, vals):
+        if r['cls'] is None:
+            dis.append(Disagreement('Chain.classify~is_limited_retries_error/is_transient_error', {'shape': sp}, 'terminates', r.get('error')))
+            continue
+        d = _links_stats(r['links'], acc)
+        depth_hist[str(d)] = depth_hist.get(str(d), 0) + 1
+        distinct.add(json.dumps(r['links'], sort_keys=True))
+        m = {'limited': bool(v[0]), 'rate_limit': rate[sp['atom']], 'transient': bool(v[1])}
+        i = dict(zip(('limited', 'rate_limit', 'transient'), r['cls']))
+        if m != i:
+            dis.append(Disagreement('Chain.classify~is_limited_retries_error/is_transient_error',
+                                    {'shape': sp, 'links_set_by_the_interpreter': r['links'], 'own_limited': own[0], 'own_transient': own[2]}, m, i))
+    return Corr(evaluations=len(shapes), distinct_nontrivial=sum(1 for x in distinct if '"cause": {' in x or '"context": {' in x),
+                rule='chained exception objects built by real raise statements (raise X from Y / raise X inside except / from None / mixed / re-raise from a '
+                     'secondary error), classified by the REAL is_limited_retries_error, is_rate_limit_error, is_transient_error and by Retry.Chain.classify '
+                     '(vm_compute) on the links the interpreter really set; own-tests table measured on bare atoms; non-trivial = distinct object graph with a link; '
+                     f'links seen: {acc}',
+                samples=[{'shape': sp, 'impl': r['cls']} for sp, r in list(zip(shapes, sh))[-2:]],
+                disagreements=dis, histograms={'chain_depth': depth_hist, 'chain_links': acc}, exhaustive=False,
+                names=['Chain.classify~is_limited_retries_error/is_transient_error'])
+
+
 def correspond(ctx):
+    return _loop_corr(ctx).merge(_shape_corr(ctx))
+
+
+def _loop_corr(ctx):
     cases = _corr_cases(ctx)
     grid = _delay_grid(ctx)
     out = ctx.run_impl('c21_retry.py', {'cases': cases, 'delay_cases': grid}, timeout=300)
